@@ -267,6 +267,28 @@ class Snapshot:
         """density matrix of one block as a numpy array (object / complex)"""
         return block_density(self.W, b)
 
+    def is_pure_level(self, subs):
+        want = {id(s) for s in subs}
+        EL = self.W.h.ExpansionLevel
+        return all(b.level in (EL.Label, EL.Vector) for b in self.blocks if any(id(m) in want for m in b.members))
+
+    def joint_vector(self, subs):
+        """joint state vector of the listed subsystems (a union of pure-level blocks), in that order"""
+        want = [id(s) for s in subs]
+        blocks = [b for b in self.blocks if any(id(m) in want for m in b.members)]
+        mem = [m for b in blocks for m in b.members]
+        if sorted(id(m) for m in mem) != sorted(want):
+            raise ValueError("joint_vector(): subsystems must be a union of storage blocks")
+        psi = None
+        for b in blocks:
+            v = block_vector(self.W, b)
+            psi = v if psi is None else ref.kron_vec(psi, v)
+        dims = [int(d) for b in blocks for d in b.dims]
+        perm = [[id(m) for m in mem].index(w) for w in want]
+        if perm != list(range(len(perm))):
+            psi, dims = ref.permute_vec(psi, dims, perm)
+        return psi, dims
+
     def joint(self, subs):
         """joint density matrix of the listed live subsystems (which must be a union of blocks), in that order"""
         want = [id(s) for s in subs]
@@ -283,6 +305,32 @@ class Snapshot:
         if perm != list(range(len(perm))):
             rho, dims = ref.permute(rho, dims, perm)
         return rho, dims
+
+
+def block_vector(W: World, b: Block):
+    """state vector of a pure-level (Label / Vector) block"""
+    h, B = W.h, W.B
+    EL = h.ExpansionLevel
+    D = 1
+    for d in b.dims:
+        D *= d
+    if b.level == EL.Label:
+        o = b.members[0]
+        st = b.array
+        if isinstance(o, h.Polarization):
+            if not isinstance(st, h.PolarizationLabel):
+                raise WFError(f"{W.name_of(o)}: level Label but state is {type(st).__name__}")
+            return B.pol_label_vector(st.value)
+        if isinstance(st, bool) or not isinstance(st, (int, np.integer)):
+            raise WFError(f"{W.name_of(o)}: level Label but state is {type(st).__name__}")
+        d = b.dims[0]
+        if d > 0 and not (0 <= st < d):
+            raise WFError(f"{W.name_of(o)}: label {st} outside dimension {d}")
+        return ref.ket(int(st), d if d > 0 else st + 1, B.like())
+    arr = B.np(b.array)
+    if b.level != EL.Vector or arr.shape != (D, 1):
+        raise WFError(f"block {[W.name_of(m) for m in b.members]}: level {b.level!r}, shape {arr.shape}, expected {(D, 1)}")
+    return arr
 
 
 def block_density(W: World, b: Block):
